@@ -182,11 +182,14 @@ CLAIMED['C15'] = (
     'authenticated, has the admin flag when admin is asked for and the permission group when one is asked for (all four '
     'combinations each), otherwise a 401 / login response is returned and the body is not entered; csrf_token_required runs the body '
     'exactly when a token was found (JSON body, query, form - in that order) and CsrfProtection.check accepted it (or none was '
-    'found and the token is optional). Guard table, regenerated from the source on every run: each of 20 state-changing handler '
+    'found and the token is optional). CsrfProtection.check accepts a token exactly when the cookie is present and non-empty, the '
+    'token has not been used, is unmodified and was issued for this cookie and service (and origin in strict mode) - and every '
+    'fresh token that reaches the store is recorded as used, accepted or not (at most once). Guard table, regenerated from the source on every run: each of 20 state-changing handler '
     'methods named in the property\'s anchors carries the guard the documentation assigns (media group for streams, media, keys; '
     'admin / logged-in JWT user for user management).',
     'Trusted / not covered: Flask MethodView applying `decorators`, flask_login / flask_jwt_extended user objects, the handler bodies '
-    '("state unchanged" is reduced to "body not entered"), the CSRF token algebra (HMAC, store of used tokens) and token pruning. '
+    '("state unchanged" is reduced to "body not entered"), HMAC as an injective unforgeable function, the issuing side '
+    '(generate_token) and token pruning. '
     'Known findings: multi_period_streams.EditStream.post / delete admit every logged-in user. The guard table is a syntactic '
     'obligation (decidable by reading the decorator lists), not an SMT proof.',
     'contract-based deductive verification of the decorator closures (AST->VC generator, z3) + source-derived guard lemmas')
